@@ -661,6 +661,10 @@ pub enum ScanError {
         protocol: ShieldedPool,
         at_height: BlockHeight,
     },
+
+    /// The height, block hash, parent hash or a transaction identifier of a compact block was
+    /// improperly encoded (a height outside the `u32` range, or a hash that is not 32 bytes).
+    BlockEncodingInvalid { at_height: BlockHeight },
 }
 
 impl ScanError {
@@ -674,6 +678,7 @@ impl ScanError {
             TreeSizeUnknown { .. } => false,
             TreeSizeInvalid { .. } => false,
             TreeSizeOverflow { .. } => false,
+            BlockEncodingInvalid { .. } => false,
         }
     }
 
@@ -687,6 +692,7 @@ impl ScanError {
             TreeSizeUnknown { at_height, .. } => *at_height,
             TreeSizeInvalid { at_height, .. } => *at_height,
             TreeSizeOverflow { at_height, .. } => *at_height,
+            BlockEncodingInvalid { at_height } => *at_height,
         }
     }
 }
@@ -754,6 +760,10 @@ impl fmt::Display for ScanError {
                     "The {protocol:?} note commitment tree size at height {at_height} would exceed the `u32` range."
                 )
             }
+            BlockEncodingInvalid { at_height } => write!(
+                f,
+                "The height, a block hash or a transaction identifier of the compact block at height {at_height} was improperly encoded."
+            ),
         }
     }
 }
